@@ -978,6 +978,9 @@ func (dc *driverContextLigature) transition(driver stateTableDriver, entry table
 		cursor := dc.matchLength
 
 		actionIdx := entry.AsMorxLigature()
+		if int(actionIdx) > len(dc.table.LigatureAction) { // invalid action index
+			return
+		}
 		actionData := dc.table.LigatureAction[actionIdx:]
 
 		ligatureIdx := 0
@@ -1010,7 +1013,7 @@ func (dc *driverContextLigature) transition(driver stateTableDriver, entry table
 			}
 			offset := int32(uoffset)
 			componentIdx := int32(buffer.cur(0).Glyph) + offset
-			if int(componentIdx) >= len(dc.table.Components) {
+			if componentIdx < 0 || int(componentIdx) >= len(dc.table.Components) {
 				break
 			}
 			componentData := dc.table.Components[componentIdx]
